@@ -262,6 +262,20 @@ example : ∃ s : St (Option Int), Reach (init (Option Int) 2) s ∧
   ⟨_, reach_of_run [.inItem 1 (some 5), .inErr 0 7, .cCall true, .sendOk 1, .inErr 1 8, .cas 0, .cas 1, .win 0, .win 0,
       .cCall true, .cEnd, .cCall false, .cEnd] .refl rfl, by decide⟩
 
+/-- **A `Next` of the merged stream that fails on its expired context costs nothing** (the Merge clause
+of C08): taking the `ctx.Done()` arm changes nothing but the consumer's own state — no goroutine
+moves, no item is taken or dropped, the sender is untouched — so the next `Next` continues exactly
+where the sequence was (by `streamMerge_interleaving` nothing is lost or duplicated). -/
+theorem streamMerge_ctx_costs_nothing (s s' : St V) (h : step s .cCtx = some s') :
+    s'.gs = s.gs ∧ s'.out = s.out ∧ s'.senderCloses = s.senderCloses ∧ s'.senderErr = s.senderErr ∧
+    s'.results = s.results ++ [.ctx] ∧ s'.cpc = .idle := by
+  obtain ⟨_, rfl⟩ := step_cCtx h
+  exact ⟨rfl, rfl, rfl, rfl, rfl, rfl⟩
+
+/-- a goroutine is parked in `Send` with an item; the expired `Next` returns ctx, the next one gets the item -/
+example : ∃ s : St (Option Int), Reach (init (Option Int) 1) s ∧ s.results = [.ctx, .item 0 (some 4)] :=
+  ⟨_, reach_of_run [.inItem 0 (some 4), .cCall false, .cCtx, .cCall true, .sendOk 0] .refl rfl, by decide⟩
+
 /-- **The merged stream ends only when every input has ended and everything was delivered** (the
 "only if" half of `streamMerge_end_iff_all_done`).
 In every reachable state in which the consumer has been told the normal end: every input's `Next`
